@@ -121,8 +121,8 @@ def _gen_op(rng, g):
     r = rng.random()
     if r < 0.45:
         kind = rng.choice(["swap!", "swap!", "swap-vals!", "pyswap"])
-        return {"op": kind, "g": g, "extra": kind != "pyswap" and rng.random() < 0.35,
-                "fault": rng.choice([None, None, None, "throw1", "throw2", "slow", "reject", "reject_eq"])}
+        return {"op": kind, "g": g, "extra": rng.choice([1, 1, 2, 3, 4]) if rng.random() < 0.4 else 0,   # number of extra args (every arity)
+                "fault": rng.choice([None, None, None, "throw1", "throw2", "slow", "reject", "reject_eq", "noop"])}
     if r < 0.65:
         kind = rng.choice(["reset!", "reset-vals!", "pyreset"])
         return {"op": kind, "g": g, "fault": rng.choice([None, None, None, "reject"])}
@@ -168,7 +168,7 @@ def shrink(workload):
                 yield w
             if o.get("extra"):
                 w = copy.deepcopy(workload)
-                w["tasks"][i][j]["extra"] = False
+                w["tasks"][i][j]["extra"] = int(o["extra"]) - 1
                 yield w
     if workload.get("reactive"):
         w = copy.deepcopy(workload)
@@ -197,7 +197,7 @@ def describe():
                  "core.lpy swap! reset! swap-vals! reset-vals! compare-and-set! deref",
                  "runtime._trampoline/_TrampolineArgs", "real OS threads (one runnable at a time)"],
         "stub": ["Atom._lock (sim RLock)", "OS scheduler (seeded baton kernel)", "clock (virtual)"],
-        "fault_kinds": ["f_throw", "f_slow", "validator_reject", "validator_reject_equal_value", "watch_updates_atom", "preempt"],
+        "fault_kinds": ["f_throw", "f_slow", "validator_reject", "validator_reject_equal_value", "noop_update", "watch_updates_atom", "preempt"],
         "assumptions": ["preemption at line granularity in atom.py/reference.py/core.lpy CAS loops plus "
                         "opcode granularity in 15% of runs; C-level steps are atomic under the GIL",
                         "sim RLock implements the documented RLock contract"],
@@ -280,6 +280,10 @@ def run(workload, k):
             if flt == "reject":
                 fault("validator_reject")
                 res |= REJ
+            if flt == "noop":
+                # an update that returns the very object it was given: still an operation, still one (s, s) notification
+                fault("noop_update")
+                return cur
             if flt == "reject_eq":
                 # a value EQUAL to the one it replaces that the validator nevertheless rejects (it is not an int)
                 fault("validator_reject_equal_value")
@@ -292,10 +296,15 @@ def run(workload, k):
         bit = 1 << op.get("g", 0)
         if kind in ("swap!", "swap-vals!"):
             f = make_f(op, opid)
-            if op.get("extra"):
-                return _fns[kind](a, f, 1 << (op["g"] + 12))
+            nx = int(op.get("extra") or 0)
+            if nx:
+                # 1..4 extra arguments: swap!'s fixed and variadic arities / apply paths all carry them to f
+                return _fns[kind](a, f, 1 << (op["g"] + 12), *([0] * (nx - 1)))
             return _fns[kind](a, f)
         if kind == "pyswap":
+            nx = int(op.get("extra") or 0)
+            if nx:
+                return a.swap(make_f(op, opid), 1 << (op["g"] + 12), *([0] * (nx - 1)))
             return a.swap(make_f(op, opid))
         if kind in MUT_RESET:
             v = bit | (REJ if op.get("fault") == "reject" else 0)
@@ -378,6 +387,8 @@ def _step(state, o):
         if flt == "throw1":
             return [(state, None)] if res == ("exc", "Boom") else []
         new = state | bit | ((1 << (op["g"] + 12)) if op.get("extra") else 0)
+        if flt == "noop":
+            new = state
         out = []
         if flt == "throw2" and res == ("exc", "Boom"):
             out.append((state, None))      # legal only when the first attempt lost a race
@@ -452,16 +463,21 @@ def _judge(workload, st):
                 return False
         for w, d in dyn.items():
             seen = collections.Counter(st["dwatch"].get(w, []))
-            if any(c > 1 for c in seen.values()) or any(p not in trans for p in seen):
-                return False
             add, rem = d.get("add"), d.get("rem")
+            # per (old, new) pair: how many transitions the watch MUST have seen (registered for the whole
+            # operation) and how many it MAY have seen (registered at some point of the operation); pairs can
+            # repeat now that an update may return the value it was given
+            must = collections.Counter()
+            may = collections.Counter()
             for a_, b_, oid in trans3:
                 o = byid[oid]
                 if add is not None and add.ret < o.inv and (rem is None or rem.inv > o.ret):
-                    if (a_, b_) not in seen:
-                        return False        # registered for the whole op, yet not notified
-                if (add is None or add.inv > o.ret or (rem is not None and rem.ret < o.inv)) and (a_, b_) in seen:
-                    return False            # not registered at any point of the op, yet notified
+                    must[(a_, b_)] += 1
+                if not (add is None or add.inv > o.ret or (rem is not None and rem.ret < o.inv)):
+                    may[(a_, b_)] += 1
+            for p_ in set(seen) | set(must):
+                if not must[p_] <= seen[p_] <= may[p_]:
+                    return False
         return True
 
     use_final = bool(nw or dyn)
